@@ -62,6 +62,14 @@ def gen_model(rng, name="M", size=None, want=None):
     feats = set()
     decl, eqs, ieqs = [], [], []
 
+    # ---- a genuinely two-dimensional variable (rows of the metadata matrix = numel, not size1) ----------
+    matrix = None
+    if "matrix" in want or rng.random() < 0.25:
+        r_, c_ = rng.choice([(2, 2), (2, 3), (1, 2), (3, 2), (1, 3)])
+        rows_txt = ", ".join("{%s}" % ", ".join(_num(rng) for _ in range(c_)) for _ in range(r_))
+        decl.append("parameter Real gm0[%d, %d] = {%s};" % (r_, c_, rows_txt))
+        matrix = (r_, c_)
+        feats.add("matrix-variable")
     # ---- parameters --------------------------------------------------------------------
     preal = []
     for i in range(rng.randint(1, 1 + size)):
@@ -137,6 +145,16 @@ def gen_model(rng, name="M", size=None, want=None):
             mods.append(("each " if arr else "") + "fixed = true")
         return "(" + ", ".join(mods) + ")" if mods else ""
 
+    def each_attrs():
+        mods = []
+        for a in ("min", "max", "nominal"):
+            if rng.random() < 0.4:
+                mods.append("each %s = %s" % (a, _pexpr(rng, preal_all) if rng.random() < 0.6 else _num(rng)))
+        return "(" + ", ".join(mods) + ")" if mods else ""
+
+    # the matrix variable comes first among the algebraic variables: everything after it is shifted
+    if matrix:
+        decl.append("Real wm0[%d, %d]%s;" % (matrix[0], matrix[1], each_attrs()))
     # ---- states ------------------------------------------------------------------------
     states = []
     for i in range(rng.randint(0 if size < 2 else 1, size)):
@@ -191,6 +209,14 @@ def gen_model(rng, name="M", size=None, want=None):
     for n in algs:
         eqs.append("%s = %s;" % (n, lin(pool)))
         pool.append(n)
+    if matrix:
+        eqs.append("wm0 = gm0 * %s;" % rng.choice(pool))
+    if "cancellation" in want or rng.random() < 0.2:
+        # terms that cancel only in exact arithmetic: (a + b) + (c - a)
+        decl.append("Real yc0%s;" % attrs())
+        a_, b_, c_2 = rng.choice(pool), rng.choice(pool), rng.choice(pool)
+        eqs.append("yc0 = (%s + %s) + (%s - %s);" % (a_, b_, c_2, a_))
+        feats.add("cancellation")
     for n, k in arrays:
         r = rng.random()
         if r < 0.5:
@@ -316,6 +342,24 @@ def points(n_sym_total, npts, seed):
     return [[r.choice(ks) for _ in range(n_sym_total)] for _ in range(npts)]
 
 
+def extreme_points(n, seed, maxpts=20):
+    """More exact points for the functions: one input of magnitude 2^60, all others small (2^-30, 1, 3), the
+    huge one moving over (up to `maxpts` of) the inputs.  Exact IEEE evaluation of the same operation sequence
+    gives the same doubles in the CasADi VM, after pickling and in gcc -O2 code; value-changing compiler
+    options (-ffast-math re-association) do not."""
+    import random
+    r = random.Random(seed * 31 + 5)
+    small = [2.0 ** -30, -2.0 ** -30, 1.0, -1.0, 3.0]
+    idx = list(range(n))
+    r.shuffle(idx)
+    pts = []
+    for h in idx[:maxpts]:
+        pt = [r.choice(small) for _ in range(n)]
+        pt[h] = r.choice([2.0 ** 60, -2.0 ** 60])
+        pts.append(pt)
+    return pts
+
+
 def signature(m, npts=2, seed=0):
     """Everything C19 compares, for a Model or a CachedModel."""
     import casadi as ca
@@ -372,7 +416,7 @@ def signature(m, npts=2, seed=0):
                    "size_out": [list(f.size_out(i)) for i in range(f.n_out())]}
             tot = sum(f.numel_in(i) for i in range(f.n_in()))
             vals = []
-            for pt in points(tot, npts, seed * 7 + 2 + len(fn)):
+            for pt in points(tot, npts, seed * 7 + 2 + len(fn)) + extreme_points(tot, seed + len(fn)):
                 args, k = [], 0
                 for i in range(f.n_in()):
                     n = f.numel_in(i)
